@@ -209,7 +209,8 @@ fn run_one(id: &str, views: u32, s: &Script) -> CaseResult {
     // debugging aid: treat every view as enabled
     let views = if std::env::var_os("CX_ALL_VIEWS").is_some() { u32::MAX & !(1 << 31) } else { views };
     exec::run_forked(views, CASE_TIMEOUT_S, || {
-        let cfg = props::world_cfg(&cfg_id, s.mode);
+        let mut cfg = props::world_cfg(&cfg_id, s.mode);
+        cfg.shallow_clone = s.layout_seed & 1 == 1;
         interp::run_script(s, cfg);
     })
 }
